@@ -1446,7 +1446,68 @@ def _selection(sem: Sem, w: ast.While) -> Tuple[str, ast.AST, List[ast.expr], Li
                 else:
                     ifs = list(g.ifs)
                 return j, g.iter, ifs, body[2:], None
-    raise NotRecognised("the loop walk is not one of the three `first eligible successor` idioms")
+    raise NotRecognised("the loop walk is not one of the `first eligible successor` idioms")
+
+
+def _next_selection(sem: Sem, e: ast.AST) -> Optional[Tuple[str, ast.AST, List[ast.expr]]]:
+    """`next(filter(P, ITER), None)` / `next((j for j in ITER if F), None)`: (j, ITER, [conditions])."""
+    if not (isinstance(e, ast.Call) and astq.callee_name(e) == "next" and len(e.args) == 2 and isinstance(e.args[1], ast.Constant) and e.args[1].value is None):
+        return None
+    g = e.args[0]
+    if isinstance(g, ast.GeneratorExp) and len(g.generators) == 1 and isinstance(g.generators[0].target, ast.Name) and isinstance(g.elt, ast.Name) and g.elt.id == g.generators[0].target.id:
+        return g.generators[0].target.id, g.generators[0].iter, list(g.generators[0].ifs)
+    if isinstance(g, ast.Call) and isinstance(g.func, ast.Name) and g.func.id == "filter" and len(g.args) == 2:
+        pred, it = g.args
+        if isinstance(pred, ast.Lambda) and len(pred.args.args) == 1:
+            return pred.args.args[0].arg, it, [pred.body]
+        if isinstance(pred, ast.Name):
+            for n in astq.walk_no_nested(sem.fn):
+                pass
+            for n in ast.walk(sem.fn):
+                if isinstance(n, ast.FunctionDef) and n.name == pred.id and n is not sem.fn and len(n.args.args) == 1 and len(n.body) == 1 and isinstance(n.body[0], ast.Return) and n.body[0].value is not None:
+                    return n.args.args[0].arg, it, [n.body[0].value]
+    return None
+
+
+def _carried_selection(sem: Sem, w: ast.While):
+    """Fourth idiom: the selection is carried by the loop variable -
+        s = SELECT(graph[start]);  while s is not None:  BODY;  s = SELECT(graph[s])
+    Returns (j, ITER inside the loop, conditions, BODY, start ITER) or None."""
+    t = w.test
+    if not (isinstance(t, ast.Compare) and len(t.ops) == 1 and isinstance(t.ops[0], ast.IsNot) and isinstance(t.left, ast.Name) and isinstance(t.comparators[0], ast.Constant) and t.comparators[0].value is None):
+        return None
+    sname = t.left.id
+    if not w.body or w.orelse:
+        return None
+    last = w.body[-1]
+    if not (isinstance(last, ast.Assign) and len(last.targets) == 1 and isinstance(last.targets[0], ast.Name) and last.targets[0].id == sname):
+        return None
+    inner = _next_selection(sem, last.value)
+    # the statement right before the loop seeds the selection
+    blk = _block_of(sem, w)
+    k = next((i for i, x in enumerate(blk) if x is w), None)
+    if inner is None or k is None or k == 0:
+        return None
+    seed = blk[k - 1]
+    if not (isinstance(seed, ast.Assign) and len(seed.targets) == 1 and isinstance(seed.targets[0], ast.Name) and seed.targets[0].id == sname):
+        return None
+    first = _next_selection(sem, seed.value)
+    if first is None:
+        return None
+    j1, it1, c1 = first
+    j2, it2, c2 = inner
+    # same predicate in both selections (modulo the bound name)
+    def atoms_of(conds, j):
+        out = set()
+        for c in conds:
+            for t, p in sem._split(_subst(c, j, ast.Name(id="_j", ctx=ast.Load())), True):
+                out.add(("" if p else "not ") + norm(t))
+        return out
+
+    if atoms_of(c1, j1) != atoms_of(c2, j2):
+        return None
+    conds = [_subst(c, j2, ast.Name(id=sname, ctx=ast.Load())) for c in c2]
+    return sname, it2, conds, list(w.body[:-1]), it1
 
 
 def walk_fact(chk, fi, sem: Sem, roles, cands: Optional[str]) -> None:
@@ -1457,9 +1518,15 @@ def walk_fact(chk, fi, sem: Sem, roles, cands: Optional[str]) -> None:
     if len(whiles) != 1:
         raise NotRecognised(f"{len(whiles)} while loops")
     w = whiles[0]
-    if not (isinstance(w.test, ast.Constant) and w.test.value is True) or w.orelse:
-        raise NotRecognised("walk loop is not `while True`")
-    jname, it, conds, body, jsub = _selection(sem, w)
+    carried = _carried_selection(sem, w)
+    start_iter = None
+    if carried is not None:
+        jname, it, conds, body, start_iter = carried
+        jsub = None
+    else:
+        if not (isinstance(w.test, ast.Constant) and w.test.value is True) or w.orelse:
+            raise NotRecognised("walk loop is neither `while True` nor carried by its selection")
+        jname, it, conds, body, jsub = _selection(sem, w)
     # roles: walk list = argument of Loop(...), used set = receiver of .update(walk)
     em = emissions(sem, roles["loops"])
     lc = _ctor(em[0][0], "Loop") if em else None
@@ -1482,6 +1549,12 @@ def walk_fact(chk, fi, sem: Sem, roles, cands: Optional[str]) -> None:
     if not (isinstance(it, ast.Subscript) and isinstance(it.value, ast.Name) and isinstance(it.slice, ast.Name)):
         raise NotRecognised(f"successors are read from `{norm(it)[:40]}`")
     graph, cur = it.value.id, it.slice.id
+    if carried is not None:
+        if cur != jname:
+            chk.violation(rule, fi.site(w), f"loop walk: the next successor is looked up in {graph}[{cur}], not in {graph}[<the strand just appended>]: the walk never moves on, only successors of `{cur}` are followed", K(fi, "walk"))
+            return
+        if not (isinstance(start_iter, ast.Subscript) and isinstance(start_iter.value, ast.Name) and start_iter.value.id == graph and isinstance(start_iter.slice, ast.Name)):
+            raise NotRecognised("carried selection is not seeded from the graph")
     gd = astq.single_def(sem.fn, graph)
     if not (gd is not None and isinstance(gd, ast.Call) and astq.callee_name(gd) == "defaultdict"):
         raise NotRecognised("successor container is not the linking graph")
@@ -1525,7 +1598,7 @@ def walk_fact(chk, fi, sem: Sem, roles, cands: Optional[str]) -> None:
         other.append(t[:60])
     if not appended and not any("appends" in b for b in bad):
         bad.append("the chosen successor is not appended to the walk")
-    if not moved:
+    if not moved and carried is None:
         bad.append(f"the walk does not move on to the chosen successor (`{cur}` keeps its value): successors of the first strand only are followed")
     if other:
         bad.append(f"additional statements in the step: {other}")
@@ -1536,7 +1609,10 @@ def walk_fact(chk, fi, sem: Sem, roles, cands: Optional[str]) -> None:
         start = norm(wd[0].elts[0].slice)
     else:
         bad.append(f"the walk does not start as [{cands}[<start>]]")
-    if start is not None and cur != start:
+    if carried is not None:
+        if start is not None and start_iter.slice.id != start:
+            bad.append(f"the first successor is looked up for `{start_iter.slice.id}`, not for the start strand `{start}`")
+    elif start is not None and cur != start:
         cd = [v for stn, v in astq.assignments(sem.fn, cur) if v is not None and norm(v) not in alias]
         if not (len(cd) == 1 and norm(cd[0]) == start):
             bad.append(f"the walk's position `{cur}` does not start at the start strand `{start}`")
